@@ -13,13 +13,16 @@
     ping|pong <nonce>
     reject <messagehex> <ccodehex> <reasonhex>
   Ops:
-    c18.frame  <chain> <msg>        → hex of to_bytes() | err:<family>
+    c18.frame  <chain> <msg>        → `W:`|`O:` then hex of to_bytes() | err:<family>; W = the message is in the
+                                      property's domain (WFMsg and a payload ≤ MAX_SIZE), O = outside
     c18.spec.frame <chain> <msg>    → hex of Spec.Msg.frameMsg
     c18.parse  <chain> <hexstream>  → `pos@msg@reframe~…` then `~eof` or `~err:<family>@pos`;
                                       `pos` = stream position after the call, msg = `none` for an
                                       unknown command, reframe = same | diff | err:<family>: whether
                                       to_bytes() of the parsed message equals the bytes consumed
-    c18.frombytes <chain> <hex>     → msg | none | err:<family>
+                                      an error raised inside msg_deser is `err:<family>@pos@payload`
+    c18.frombytes <chain> <hex>     → `W:`|`O:` then msg | none | err:<family>   (W = canonical frame of the
+                                      message returned, or a frame-level rejection; O = anything else)
     c18.magic  <chain>              → hex
 -/
 import Driver.Util
@@ -118,6 +121,16 @@ def showMsg : Msg → String
 def magicOf? (chain : String) : Option Bytes :=
   (Spec.chainByName? chain).map (fun p => p.messageStart.map UInt8.ofNat)
 
+/-- header, declared length and checksum of the first frame of `s` pass `stream_deserialize`'s tests -/
+def frameAccepted (magic s : Bytes) : Bool :=
+  let n := Model.Msg.declaredLen s
+  decide (24 ≤ s.length) && s.take 4 == magic && decide (n ≤ Model.Wire.MAX_SIZE) &&
+    decide (24 + n ≤ s.length) && (s.drop 20).take 4 == Model.Msg.checksum ((s.drop 24).take n)
+
+/-- "field values the protocol version carries", with a payload the length field and `ser_read` can honour -/
+def inDomain (m : Msg) : Bool :=
+  decide (Spec.Msg.WFMsg m) && decide ((Spec.Msg.payload m).length ≤ Spec.Wire.maxSize)
+
 /-- the `while f.tell() < len(data)` loop of the harness, with positions -/
 def parseLoop (magic : Bytes) (total : Nat) : Nat → Bytes → List String → List String
   | 0, _, acc => ("eof" :: acc).reverse
@@ -135,13 +148,18 @@ def parseLoop (magic : Bytes) (total : Nat) : Nat → Bytes → List String → 
                 showMsg m ++ "@" ++ re
             | none => "none@-"
           parseLoop magic total fuel r (s!"{total - r.length}@{txt}" :: acc)
-      | (.error e, r) => (s!"err:{e.family}@{total - r.length}" :: acc).reverse
+      | (.error e, r) =>
+          -- an error raised inside msg_deser (header, length and checksum were accepted) is marked:
+          -- the property does not say how a well-framed but malformed payload is treated
+          let tag := if frameAccepted magic s then "@payload" else ""
+          (s!"err:{e.family}@{total - r.length}{tag}" :: acc).reverse
 
 def handle (op : String) (args : List String) : Option String :=
   match op, args with
   | "c18.frame", [chain, msg] => some <|
       match magicOf? chain, parseMsg? msg with
-      | some magic, some m => Res.render ((Model.Msg.toBytes magic m).map toHex)
+      | some magic, some m =>
+          (if inDomain m then "W:" else "O:") ++ Res.render ((Model.Msg.toBytes magic m).map toHex)
       | _, _ => badArgs
   | "c18.spec.frame", [chain, msg] => some <|
       match magicOf? chain, parseMsg? msg with
@@ -159,9 +177,13 @@ def handle (op : String) (args : List String) : Option String :=
       match magicOf? chain, parseHex? hex with
       | some magic, some s =>
           (match Model.Msg.fromBytes magic s with
-           | .ok (some m) => showMsg m
-           | .ok none => "none"
-           | .error e => "err:" ++ e.family)
+           | .ok (some m) =>
+               let canonical := match Model.Msg.toBytes magic m with
+                 | .ok b => b == s.take b.length
+                 | .error _ => false
+               (if canonical then "W:" else "O:") ++ showMsg m
+           | .ok none => "O:none"
+           | .error e => (if frameAccepted magic s then "O:" else "W:") ++ "err:" ++ e.family)
       | _, _ => badArgs
   | "c18.magic", [chain] => some <|
       match magicOf? chain with
